@@ -36,7 +36,7 @@ from pathlib import Path
 
 REPO = Path(os.environ.get("VERIF_REPO", "/repo"))
 # persistent build directory of the native helper crate (incremental; rebuilt from /repo on every run)
-REPLAY_TARGET = Path(__file__).resolve().parent.parent / ".work" / "replay-target"
+REPLAY_TARGET = Path(__file__).resolve().parent.parent / ".work" / ("replay-target" if str(REPO) == "/repo" else "replay-target-" + str(abs(hash(str(REPO))) % 100000))
 
 
 class Unsupported(Exception):
@@ -500,6 +500,19 @@ def eval_sexpr(t, env):
 def native_distances(pairs, work: Path):
     """The real function (crate-private): compiled into /verif/replay's k1_native from /repo."""
     rp = Path(__file__).resolve().parent.parent / "replay"
+    if str(REPO) != "/repo":
+        # trying the check on a scratch tree: build a retargeted copy of the helper crate
+        import shutil
+
+        cp = work / "replay-crate"
+        if cp.exists():
+            shutil.rmtree(cp)
+        shutil.copytree(rp, cp, ignore=shutil.ignore_patterns("target", "Cargo.lock"))
+        for f in list(cp.rglob("*.rs")) + list(cp.rglob("Cargo.toml")):
+            t = f.read_text()
+            if "/repo/" in t:
+                f.write_text(t.replace("/repo/", f"{REPO}/"))
+        rp = cp
     env = dict(os.environ)
     env["CARGO_TARGET_DIR"] = str(REPLAY_TARGET)
     env["CARGO_NET_OFFLINE"] = "true"
